@@ -1,8 +1,14 @@
 import sys, json
 sys.path.insert(0, '/verif')
 from contracts import REG
-import specs.version, contracts.parser, lemmas.parser, contracts.version, lemmas.version, specs.cargo, contracts.cargo, lemmas.cargo, specs.arglist, contracts.arglist, lemmas.arglist, specs.tap, contracts.tap, specs.mtest, contracts.mtest, lemmas.mtest, specs.options, contracts.options, lemmas.options, specs.conf, contracts.conf, specs.quoting, contracts.quoting, specs.ninja, contracts.ninja, contracts.conffile, contracts.install, specs.wrap, contracts.wrap, contracts.persist, contracts.lang, contracts.setoption, contracts.regexes
-import specs.taprun, contracts.optionkey, lemmas.taprun
+import os, importlib
+if os.environ.get('DEV_PROP'):
+    import props
+    for _m in props.PROPS[os.environ['DEV_PROP']]['modules']:
+        importlib.import_module(_m)
+else:
+    import specs.version, contracts.parser, lemmas.parser, contracts.version, lemmas.version, specs.cargo, contracts.cargo, lemmas.cargo, specs.arglist, contracts.arglist, lemmas.arglist, specs.tap, contracts.tap, specs.mtest, contracts.mtest, lemmas.mtest, specs.options, contracts.options, lemmas.options, specs.conf, contracts.conf, specs.quoting, contracts.quoting, specs.ninja, contracts.ninja, contracts.conffile, contracts.install, specs.wrap, contracts.wrap, contracts.persist, contracts.lang, contracts.setoption, contracts.regexes
+    import specs.taprun, contracts.optionkey, lemmas.taprun
 from pyvc.verify import verify_contract, verify_lemma
 only = sys.argv[1:] 
 def show(r, title):
